@@ -6,7 +6,7 @@ Everything that touches the implementation imports it from /repo's *current work
 import json, os, re, subprocess, sys, time, random, hashlib, pathlib
 
 sys.dont_write_bytecode = True
-VERIF = "/verif"
+VERIF = os.path.dirname(os.path.dirname(os.path.abspath(__file__)))   # the tree this file lives in (a snapshot under vp run, else /verif)
 REPO = os.environ.get("VERIF_REPO", "/repo")   # VERIF_REPO: scratch copy for mutation self-tests only
 PY = "/venv/bin/python"
 WORK = os.path.join(VERIF, ".work")
